@@ -37,8 +37,8 @@ TEXT['C19'] = ("Kani/CBMC on the real interpolate.rs: complete proof of is_valid
                "bounded function-vs-spec-function check with Kani on the real source (include!); Verus cannot take this file (closures with reference patterns, str parsing)")
 TEXT['C15'] = ("Deductive proof (Verus/Z3) that main.rs::run computes the exit status demanded by the property (0 iff matched and (quiet or no error); 2 iff not that and an error occurred; else 1; a parse error is an Err) for every parse result, mode and value of the match/quiet/error facts; the err_message!/message!/ignore_message! macros are run natively for all four states of the message switches (err_message! always records the error). That every per-file error site uses err_message! is not verified.",
                "contract-based deductive verification (Verus) of crates/core/main.rs::run over an abstract environment")
-TEXT['C18'] = ("Deductive proof (Verus/Z3) of CommandReader::close for every exit status / wait error / stderr content: waits exactly once, Ok iff success or (early stop and empty stderr), failure surfaces otherwise, idempotent.",
-               "contract-based deductive verification (Verus) of crates/cli/src/process.rs CommandReader::close over an abstract child process")
+TEXT['C18'] = ("Deductive proof (Verus/Z3): CommandReader::close for every exit status / wait error / stderr content (waits exactly once, Ok iff success or (early stop and empty stderr), failure surfaces otherwise, idempotent); CommandReader::read records EOF before closing; SearchWorker::search_preprocessor / search_decompress return a result only if both the search of the command's output and close succeeded; should_preprocess / should_decompress equal the selection predicates and SearchWorker::search routes every path to the strategy whose predicate holds.",
+               "contract-based deductive verification (Verus) of crates/cli/src/process.rs CommandReader::{close,read} and crates/core/search.rs SearchWorker::{search,should_preprocess,should_decompress,search_preprocessor,search_decompress} over an abstract environment")
 TEXT['C09'] = ("Deductive proof (Verus/Z3) of the decimal rendering used for every printed line number, column and byte offset (DecimalFormatter, all u64 values), plus the searcher-side proof that the coordinates and bytes handed to the printers are the input's own (Core::sink_* postconditions). base64_standard: bounded native exhaustive enumeration only (all inputs of 0..3 bytes). The printers' write paths are not verified.",
                "contract-based deductive verification (Verus): DecimalFormatter against a recursive decimal spec; event coordinates from the searcher unit")
 TEXT['C12'] = ("Bounded only. Kani/CBMC (all byte paths up to 5 bytes): globset's candidate decomposition (pathutil::file_name, file_name_ext), cut mechanically from the real file, against an executable spec; counterexamples are replayed natively. Native bounded enumeration of the real globset crate: every glob up to 3 (quick) / 4 (thorough) tokens x 16 option combinations alone in a set, and every ordered pair of a 402-glob pool, against all paths up to 4 / 5 bytes over {a,b,.,/,-,A}: the set answers exactly like its member globs. Two defects found and repaired (paths ending in a dot; final component '.' or '..'). That a single glob means what is documented (parser, regex translation) is not verified.",
